@@ -358,10 +358,20 @@ func (c *xsyncMapOf[K, V]) DeleteExpired() {
 	c.items.Range(func(k K, v itemOf[V]) bool {
 		i := v
 		if i.expiredWithNow(now) {
-			c.items.Delete(k)
-			if ec != nil {
-				evictedItems = append(evictedItems, kvOf[K, V]{k, i.v})
-			}
+			// Re-validate under the bucket lock: the key may have been
+			// updated or removed since it was visited.
+			c.items.Compute(k, func(cur itemOf[V], loaded bool) (itemOf[V], bool) {
+				if !loaded {
+					return cur, true
+				}
+				if !cur.expiredWithNow(now) {
+					return cur, false
+				}
+				if ec != nil {
+					evictedItems = append(evictedItems, kvOf[K, V]{k, cur.v})
+				}
+				return cur, true
+			})
 		}
 		return true
 	})
